@@ -49,6 +49,61 @@ CLAIMED = {
         ref="5 C07", tech="TLA+ model (TLC) over all protocol pairs + relabel replay"),
 }
 
+BUILDER_NOTE = ("Trusted base: TLC; the harness projection of concrete payloads to abstract values (serde_json equality, default "
+                "timestamps recognised by a wall-clock bracket and exp - iat = 3600 s); the read-back through GenericParser; "
+                "randomness bounds with false-alarm probability < 2^-64. Binding: every history TLC prints is executed on the "
+                "real builders and every observation is validated by TLC against spec/Builder.tla (BuilderTrace).")
+PARSER_NOTE = ("Trusted base: TLC; Core.tla's symbolic reading of the primitives (the parser model calls Core!Present); the harness "
+               "projection of validator-call values and error variants; time classes with margins (>= 60 s, <= -2 s). Binding: every "
+               "history TLC prints is executed on the real parsers with tokens crafted through the core layer and every observation "
+               "is validated by TLC against spec/Parser.tla (ParserTrace); HashMap order is nondeterminism in the specification.")
+
+CLAIMED.update({
+    "C10": dict(
+        text="Builder.tla draws a fresh nonce per successful build (counter invariant); the binding is trace validation: the harness "
+             "numbers the wire nonce of every built token by first occurrence and BuilderTrace requires each build to carry a new "
+             "one - repeated builds from one builder object (250 per object), fresh builders, identical and varying claims, all four "
+             "local protocols, generic and prelude layers; per-bit frequencies of all nonces are checked inside the specification "
+             "against a Hoeffding bound (false alarm < 2^-64). Unpredictability in the cryptographic sense is not decidable here.",
+        ref="5 C10", tech="TLA+ builder model + trace validation of recorded build histories (nonce identity, bit statistics)", note=BUILDER_NOTE),
+    "C13": dict(
+        text="MC_Builder explores every PasetoBuilder call history over {set exp/iat/nbf/custom, acknowledge, set_footer, "
+             "set_implicit_assertion, build} to length 6 (thorough 7) with ExpDefault as invariant; every history is executed on the "
+             "real builder (all histories on v4, short ones on the other protocols) and every built payload, read back and projected "
+             "to default/caller values, is validated by TLC; plus random histories up to 40 calls.",
+        ref="5 C13", tech="TLA+ builder state machine (TLC, exhaustive histories) + trace validation of executed histories", note=BUILDER_NOTE),
+    "C14": dict(
+        text="GenericBuilder histories over set_claim/remove_claim (3 keys x 2 values, length 5/6) with the claim map as state; "
+             "executed with Unicode/escaped/1 KiB keys, JSON trees incl. wrapper-like objects, typed and user-defined claims; the "
+             "parsed object must project exactly onto the model's claim map (no other member).",
+        ref="5 C14", tech="TLA+ builder state machine (TLC) + trace validation with rich JSON concretisation", note=BUILDER_NOTE),
+    "C17": dict(
+        text="MC_Builder over the 12-action alphabet (9 keys, acknowledge, set_footer, build) to length 5 (thorough 6) with DupIff and "
+             "DupSticky as invariants; all 22 621 histories ending in build executed on the real PasetoBuilder; the named key must be a "
+             "repeated one; exp-after-acknowledgement may be refused or ignored; random histories to length 40.",
+        ref="5 C17", tech="TLA+ builder state machine (TLC, exhaustive histories) + trace validation of executed histories", note=BUILDER_NOTE),
+    "C15": dict(
+        text="MC_Parser: every check_claim configuration (2 keys x 2 values, up to 2/3 calls) x every sequence of up to 2 parses of "
+             "tokens carrying every absent/null/v1/v2 combination under either key, ExpectIff and parse-purity as invariants; executed "
+             "with value pairs differing in type/case/number/nested member and keys differing by one character.",
+        ref="5 C15", tech="TLA+ parser model composed with the token model (TLC) + trace validation of executed parser histories", note=PARSER_NOTE),
+    "C16": dict(
+        text="MC_Parser: validate_claim / extend_validation_claims / check_claim / set_footer configurations x authentic, tampered, "
+             "wrong-key, wrong-footer and non-JSON tokens; ValidatorDiscipline as invariant; the harness validators log (key, value) and "
+             "TLC accepts an observation iff some processing order of the claim map explains outcome, named claim and calls.",
+        ref="5 C16", tech="TLA+ parser model with order nondeterminism (TLC) + trace validation of logged validator calls", note=PARSER_NOTE),
+    "C11": dict(
+        text="MC_Parser family c11: PasetoParser::default() against every (exp class, nbf class) pair incl. non-string, empty and "
+             "garbage values, up to 2 parses per parser; the rendering space of past/future instants (every UTC offset -23:59..+23:59, "
+             "0-9 fraction digits, T/space, 4 instants per class; stride 64 quick, full thorough on v4.local) is executed in parser "
+             "objects of 100 parses and validated by TLC.",
+        ref="5 C11", tech="TLA+ default-validator model (TLC) + trace validation over the RFC 3339 rendering space", note=PARSER_NOTE),
+    "C12": dict(
+        text="As C11 with the direction reversed (NbfRejects); the full exp x nbf class product is explored so that an early return on "
+             "one claim cannot mask the other.",
+        ref="5 C12", tech="TLA+ default-validator model (TLC) + trace validation over the RFC 3339 rendering space", note=PARSER_NOTE),
+})
+
 NOT_YET = "check not built yet (work in progress, see DESIGN.md section 11)"
 
 
